@@ -4,7 +4,7 @@ lexer-shape part of C16)."""
 import os
 import re
 
-from common import (KernelBuild, Target, Rules, ExtractionBreak, base_rules, load_contracts, throw_rule,
+from common import (nondet_bools, KernelBuild, Target, Rules, ExtractionBreak, base_rules, load_contracts, throw_rule,
                     chai2c, VERIF)
 
 HDR = "include/chaiscript/language/chaiscript_parser.hpp"
@@ -359,7 +359,7 @@ def lexer_targets(kb):
             decls.append(re.sub(r"\bconst\b\s*(?=\w+\s+\w+$)", "", p) + ";")
             args.append(name)
         kb.add("void h_%s(void) { %s %s(%s); VERIF_CANARY(\"%s returns normally\"); }"
-               % (cname, " ".join(decls), cname, ", ".join(args), cname))
+               % (cname, nondet_bools(" ".join(decls)), cname, ", ".join(args), cname))
         # transitive closure through inlined (non-replaced) callees
         rep = set()
         seen = set()
